@@ -14,9 +14,9 @@ from typing import List, Optional
 from fsa.cfg import CFG, raised_class
 from fsa.consts import folder
 from fsa.effects import effect_nodes
-from fsa.flow import dominators, guards
+from fsa.flow import LocalFlow, dominators, guards
 from fsa.ftn import parse_template
-from fsa.match import Affine, affine, cmp_of, dict_slot, disj_atoms, is_underscore_key, dotted
+from fsa.match import Affine, Unknown, affine, cmp_of, dict_slot, disj_atoms, is_underscore_key, dotted
 from fsa.source import AnchorMissing, Unsupported, iter_own_nodes, stmt_key, text
 from rules.solver_common import (
     FnView,
@@ -70,6 +70,16 @@ def r1_index_discipline(R) -> None:
                 # local arrays (current_values[...] = 0.0) are not model state
                 continue
             sites += 1
+            if text(st.index) != idx_name and isinstance(st.index, ast.Name) and st.index.id not in fi.params():
+                ok_aff = True
+                try:
+                    ok_aff = all(dv is not None and not any(isinstance(x, (ast.Call, ast.Subscript)) for x in ast.walk(dv))
+                                 for (_s, dv) in LocalFlow(cfg, fi.params()).values_reaching(st.node.id, st.index.id))
+                except Exception:
+                    ok_aff = False
+                if not ok_aff:
+                    # a local that is not plain arithmetic on the period (an array of positions, a mask): vectorised store
+                    raise Unknown(f'{q}: store `{st.node.label()[:60]}` is indexed by the computed local `{st.index.id}` (array of positions / mask): not read here')
             R.check(text(st.index) == idx_name, q, f'store-index:{stmt_key(st.node.ast)}',
                     f'store {st.owner}.{st.series}[{idx_name}] addresses the period being solved',
                     f'store `{st.node.label()}` addresses `{text(st.index)}`, not `{idx_name}`',
